@@ -1,4 +1,7 @@
 // One translation unit per (H_ORDER, H_DIM): SplineOptimizer over {QuadInv, Identity, Affine} x {Identity, Paraboloid}.
+#if defined(_OPENMP)
+#include <omp.h>
+#endif
 #include <cstring>
 #include "common.hpp"
 #include "SplineOptimizer.hpp"
@@ -321,6 +324,37 @@ namespace
             std::vector<Eigen::VectorXd> grads(nth);
             std::vector<std::unique_ptr<WS>> wss;
             for (long t = 0; t < nth; ++t) wss.emplace_back(new WS());
+#if defined(_OPENMP)
+            // OpenMP build: the evaluations are issued by the threads of an OpenMP team, each with its own workspace, and use the
+            // library's OpenMPExecutor for the segment loop
+            {
+                const Opt &so = *opt;
+                #pragma omp parallel num_threads((int)nth)
+                {
+                    int t = omp_get_thread_num();
+                    if (t < nth)
+                    {
+                        HV::TimeCost tc{&cs};
+                        HV::RunCost<D> rc{&cs, nullptr};
+                        HV::WpCost wc{&cs};
+                        OpenMPExecutor ex;
+                        for (long k = 0; k < reps; ++k)
+                        {
+                            if (cs.useWp)
+                                costs[t] = so.evaluate(x, grads[t], tc, wc, rc, wss[t].get(), ex);
+                            else
+                                costs[t] = so.evaluate(x, grads[t], tc, rc, wss[t].get(), ex);
+                        }
+                    }
+                }
+                for (long t = 0; t < nth; ++t)
+                {
+                    o.key("tcost"); o.num(costs[t]); o.nl();
+                    o.vec("tgrad", grads[t], grads[t].size());
+                }
+                return;
+            }
+#endif
             const Opt &shared_opt = *opt;
             // even threads share the one configured optimizer (each with its own workspace); odd threads work on private copies of
             // it: nothing may be shared between different optimizer objects either (function-local statics, class statics)
